@@ -20,6 +20,18 @@ CLAIMED = {
         note='greedy heuristic fallback not modelled (excluded by the property); numpy integer arithmetic trusted.',
         technique='Lean 4 proof (induction over elimination steps) + model/implementation correspondence check',
         design_ref='DESIGN.md 4/C18'),
+    'C10': dict(
+        text='Theorems about a Lean model (generic in the scalar ring) of ECOS.apply, separate_cone_constraints, '
+             'dualize_problem, Mosek._primal_apply/_dual_apply and the MOSEK tasks: feasible-set equivalence for every '
+             'cone sequence, projection equivalence of slack separation for every dont_sep, weak duality / zero-gap '
+             'optimality of the dualised form.  The model is tied to the code by an exhaustive (all cone sequences '
+             'up to a length) + random differential test with exact rational data; the MOSEK calls are recorded '
+             'by a stub module.  Cone-membership sampling and constructed primal/dual pairs confirm a failure on the '
+             'implementation.',
+        note='MOSEK API semantics are those of harness/stubs/mosek.py and the published cone definitions; existence of '
+             'strong duality (a fact about cones, not the code) is not proved; scipy.sparse row selection trusted.',
+        technique='Lean 4 proof (list induction over cone sequences, generic ring) + model/implementation correspondence check',
+        design_ref='DESIGN.md 4/C10'),
 }
 
 NOT_YET = 'check not built yet in this session (planned, see DESIGN.md section 6); not claimed until its theorems and correspondence exist'
